@@ -425,6 +425,18 @@ func (r *rewriter) goStmt(g *ast.GoStmt) ast.Stmt {
 	pre = append(pre, &ast.AssignStmt{Lhs: []ast.Expr{fn}, Tok: token.DEFINE, Rhs: []ast.Expr{call.Fun}})
 	var args []ast.Expr
 	for i, a := range call.Args {
+		// nil and constants are passed as they stand: they have no side effects, and a temporary would give an
+		// untyped constant its default type (or, for nil, not compile at all)
+		if tv, ok := r.info.Types[a]; ok && (tv.IsNil() || tv.Value != nil) {
+			args = append(args, a)
+
+			continue
+		}
+		if id, ok := a.(*ast.Ident); ok && id.Name == "nil" {
+			args = append(args, a)
+
+			continue
+		}
 		id := ast.NewIdent(fmt.Sprintf("_va%d_%d", r.tmp, i))
 		pre = append(pre, &ast.AssignStmt{Lhs: []ast.Expr{id}, Tok: token.DEFINE, Rhs: []ast.Expr{a}})
 		args = append(args, id)
